@@ -34,6 +34,17 @@ def schemes():
     return [lg.Scheme(lg.RICH_FIELDS, lg.RICH_FNS, LISTS, True), lg.Scheme(CONF_FIELDS, CONF_FNS, LISTS, True)]
 
 
+def wide_scheme():
+    """a scheme of 290 fields: the rich fields sit at indexes 58..81 and once more (prefixed) at 250..273, so that
+    the fields a filter uses have indexes on both sides of 63/64, 127/128 (fillers) and 255/256"""
+    fields = [("w%d" % k, "int" if k % 2 else "bytes", k % 3 == 0) for k in range(58)]
+    fields += list(lg.RICH_FIELDS)
+    fields += [("w%d" % k, "int" if k % 2 else "bytes", k % 3 == 0) for k in range(len(fields), 250)]
+    fields += [("zz." + n, t, o) for n, t, o in lg.RICH_FIELDS]
+    fields += [("w%d" % k, "ip" if k % 2 else "bool", True) for k in range(len(fields), 290)]
+    return lg.Scheme(fields, lg.RICH_FNS, LISTS, True)
+
+
 # ---------------------------------------------------------------- the oracle (on the generator's tree)
 
 def occ_l(e, acc, inlist, depth):
@@ -251,7 +262,7 @@ def gen(rng, tier):
     bump("directed", len(out))
     n = 2400 if tier == "quick" else 40000
     feats = ("index", "each", "quant", "oneof", "call", "vec", "mapbool", "inlist")
-    plan = [(rich, feats, 3, 0.45), (conf, feats, 3, 0.2), (rich, ("index", "each", "quant", "inlist", "vec"), 3, 0.1),
+    plan = [(rich, feats, 3, 0.4), (wide_scheme(), feats, 3, 0.05), (conf, feats, 3, 0.2), (rich, ("index", "each", "quant", "inlist", "vec"), 3, 0.1),
             (lg.Scheme([f for f in lg.RICH_FIELDS if isinstance(f[1], str)], [], LISTS, False), ("inlist", "oneof"), 4, 0.1)]
     for sch, fs, depth, share in plan:
         g = lg.Gen(rng, sch, features=fs, max_depth=depth)
